@@ -810,6 +810,24 @@ theorem C08_errLoop_eq (ext : Ext) (e : Elem) :
         simp only [Bool.false_eq_true, if_false]
         rw [ih b.addErr (by rw [hfr, hff])]
 
+/-! ### the constructors' default (round 5) -/
+
+/-- **C08_ctor_failfast_default** — every public constructor returns a binder without errors and
+    with fail-fast ENABLED -/
+theorem C08_ctor_failfast_default (c : Ctor) : (newBinder c).failFast = true ∧ (newBinder c).errors = 0 := by
+  cases c <;> exact ⟨rfl, rfl⟩
+
+/-- **C08_default_binder_nothing_after_error** — a binder fresh from ANY constructor, used without
+    a `FailFast` call: once a binding op records an error every later binding op of the chain is
+    untouched (no write, no user function invoked, nothing recorded) -/
+theorem C08_default_binder_nothing_after_error (ext : Ext) (c : Ctor) (pre post : List Op) (o : Op)
+    (hpre : ∀ x ∈ pre, x.isBinding = true) (ho : o.isBinding = true)
+    (hpost : ∀ x ∈ post, x.isBinding = true)
+    (herr : (vbStep ext (vbEnd ext (newBinder c) pre) o).1.errors ≠ 0) :
+    vbRun ext (newBinder c) (pre ++ o :: post)
+      = vbRun ext (newBinder c) pre ++ (vbStep ext (vbEnd ext (newBinder c) pre) o).2 :: post.map Op.untouched :=
+  C08_failfast_nothing_after_error_ops ext (newBinder c) (C08_ctor_failfast_default c).1 pre post o hpre ho hpost herr
+
 /-! ### empty text -/
 
 /-- **C08_empty (value binder)** — an empty or absent value is "absent": the destination is not
@@ -1118,6 +1136,34 @@ theorem C08_empty (ext : Ext) :
   ⟨fun d => (C08_empty_struct ext d).1, (C08_empty_struct ext (.vbUnix)).2.1,
    fun b c hs he => C08_empty_vb ext b c hs he⟩
 
+/-! ### named types of builtin kind with their own unmarshaler (round 5) -/
+
+/-- **C08_named_own_parser** — a named type of builtin kind that implements an unmarshaler is
+    converted by its own method (the external parser `200 + k`), with the text exactly as sent
+    (no `"0"` / `"false"` default for empty text) — never by strconv, whatever its kind -/
+theorem C08_named_own_parser (ext : Ext) (k : Nat) (s : List Char) :
+    structElem ext (.named k) s = (ext (200 + k) s).map .opq := by
+  unfold structElem emptyDefault parseElem
+  by_cases h : s = [] <;> simp [h]
+
+/-- … and that holds for every ELEMENT of a slice, slice of pointers or pointer to slice: the
+    field is bound iff the type's own method accepts every text, and then holds its answers -/
+theorem C08_named_slice_elements (ext : Ext) (k : Nat) (w : Wrap)
+    (hw : w = .slice ∨ w = .sliceOfPtr ∨ w = .ptrToSlice) (init : FVal) (v0 : List Char)
+    (vs : List (List Char)) (xs : List SVal) :
+    bindField ext ⟨w, .named k, init, some (v0 :: vs)⟩ = .ok (.many xs)
+      ↔ (v0 :: vs).map (fun s => (ext (200 + k) s).map SVal.opq) = xs.map some := by
+  have key : structElems ext (.named k) (v0 :: vs) = some xs
+      ↔ (v0 :: vs).map (fun s => (ext (200 + k) s).map SVal.opq) = xs.map some := by
+    rw [structElems_spec]
+    have : (fun s => structElem ext (.named k) s) = (fun s => (ext (200 + k) s).map SVal.opq) := by
+      funext s; exact C08_named_own_parser ext k s
+    simp only [this]
+  rw [← key]
+  unfold bindField
+  rcases hw with rfl | rfl | rfl <;> simp only <;>
+    (cases h : structElems ext (.named k) (v0 :: vs) <;> simp)
+
 /-! ## non-vacuity: concrete instances -/
 
 /-- no external parser needed for the integer examples -/
@@ -1239,5 +1285,31 @@ example : structBind noExt [⟨.multi, .unm, .many [.opq ['o']], some [['1'], []
     = (.bad, [.many [.opq ['1'], .opq [], .opq ['2']], .many [], .one (.bool true)]) := by decide +kernel
 example : structBind noExt [⟨.multi, .unm, .many [.opq ['o']], some []⟩] = (.ok, [.many []]) := by decide +kernel
 example : (structBind noExt [⟨.scalar, .unm, .one (.opq ['o']), some []⟩]).1 = .panic := by decide
+
+-- round 5 --------------------------------------------------------------------------------------
+
+/-- the hex-id type (k = 0): `10` is sixteen, `20` thirty-two, `zz` and `` are rejected;
+    the percent type (k = 1): `100` fits, `250` does not -/
+def exNamed : Ext := extOf [(200, ['1','0'], some ['1','6']), (200, ['2','0'], some ['3','2']), (200, ['z','z'], none),
+  (200, [], none), (201, ['1','0','0'], some ['1','0','0']), (201, ['2','5','0'], none)]
+
+-- the same text denotes the same number for a scalar field and for slice elements — and it is
+-- the type's meaning (16, 32), not strconv's (10, 20)
+example : structBind exNamed [⟨.scalar, .named 0, .one (.opq ['0']), some [['1','0']]⟩,
+      ⟨.slice, .named 0, .nil, some [['1','0'], ['2','0']]⟩,
+      ⟨.ptrToSlice, .named 0, .nil, some [['2','0']]⟩,
+      ⟨.sliceOfPtr, .named 1, .nil, some [['1','0','0']]⟩]
+    = (.ok, [.one (.opq ['1','6']), .many [.opq ['1','6'], .opq ['3','2']], .many [.opq ['3','2']],
+        .many [.opq ['1','0','0']]]) := by decide +kernel
+-- a text the type rejects is a 400 also as a slice element (strconv would accept 250 for a uint8)
+example : structBind exNamed [⟨.slice, .named 1, .many [.opq ['7']], some [['1','0','0'], ['2','5','0']]⟩]
+    = (.bad, [.many [.opq ['7']]]) := by decide +kernel
+-- empty text is handed to the method (which rejects it here); an integer KIND would have bound 0
+example : structBind exNamed [⟨.scalar, .named 0, .one (.opq ['7']), some [[]]⟩] = (.bad, [.one (.opq ['7'])]) := by
+  decide +kernel
+-- a default FormFieldBinder: the failing first field freezes the rest of the chain
+example : vbRun noExt (newBinder .form) [.call exBad, .call exGood, .bindErrors]
+    = [.call (.scalar (.int 7)) 1, .call (.scalar (.int 7)) 0, .errs 1] := by decide +kernel
+example : (vbStep noExt (vbEnd noExt (newBinder .form) []) (.call exBad)).1.errors ≠ 0 := by decide +kernel
 
 end C08
